@@ -18,7 +18,7 @@ def run_cases_confirm(run, v):
     if v.get('script'):
         case['script'] = v['script']
     detail = {}
-    ok_all = True
+    ok_all = False      # reproduced in the dev or the release profile (both recorded)
     for rel in (False, True):
         obs = run.native([case], release=rel)[0]
         rule = v['rule']
@@ -30,5 +30,5 @@ def run_cases_confirm(run, v):
         else:
             ok = False
         detail['release' if rel else 'dev'] = {'observation': obs, 'reproduced': ok}
-        ok_all = ok_all and ok
+        ok_all = ok_all or ok
     return ok_all, detail
